@@ -1031,3 +1031,19 @@ def _(eng, ci, a, dt):
             return Slice(inner.f, 0, len(inner.f), True)
         return inner
     return r
+
+
+@model('Add::add', 'Sub::sub', 'Mul::mul')
+def _(eng, ci, a, dt):
+    """`<&i32 as Sub<i32>>::sub` and friends: the std impls forward to the primitive op and inherit the
+    caller's overflow checks (rustc_inherit_overflow_checks) -> overflow is a panic path, as in MIR."""
+    from .interp import RustPanic
+    x, y = deref(a[0]), deref(a[1])
+    k = scalar_sort_info(eng, ci, x)
+    if k[0] != 'int':
+        raise Unsupported('operator trait call on non-integer: ' + ci.text)
+    op = {'add': 'AddWithOverflow', 'sub': 'SubWithOverflow', 'mul': 'MulWithOverflow'}[ci.method]
+    r = ops.int_binop(op, x, y, k[1], k[2])
+    if eng.truth(r.f[1]):
+        raise RustPanic('attempt to %s with overflow' % ci.method, 'overflow', ci.text)
+    return r.f[0]
